@@ -67,7 +67,7 @@ Print Assumptions trunc_parses_partial.
 
 (* when padding is requested (and the message has an OPT record to carry it) the final length,
    TSIG included, is a multiple of the block size - for every message, origin, limit and key name
-   (the repaired code writes the TSIG owner uncompressed after padding; commit 5e0f3f6) *)
+   (the repaired code writes the TSIG owner uncompressed after padding; commit d2163b7) *)
 Theorem pad_multiple : forall m origin max_size request_payload prefer_truncation pad o w,
   0 < pad -> mopt m = Some o ->
   to_wire m origin max_size request_payload prefer_truncation pad = Ok w -> zlen w mod pad = 0.
